@@ -140,11 +140,11 @@ def trailerToks : List Tok :=
   [.kw "endcmap", .kw "CMapName", .kw "currentdict", .name "CMap".toUTF8.toList, .kw "defineresource", .kw "pop",
    .kw "end", .kw "end"]
 
-def renderREntry (e : REntry) : List Tok :=
-  [.str e.lo, .str e.hi,
-   match e.dst with
-   | .inc d => .str d
-   | .arr ds => .arr (ds.map AElem.str)]
+def dstTok : Dst → Tok
+  | .inc d => .str d
+  | .arr ds => .arr (ds.map AElem.str)
+
+def renderREntry (e : REntry) : List Tok := [.str e.lo, .str e.hi, dstTok e.dst]
 
 def renderSec : Sec → List Tok
   | .chars es => [.int es.length, .kw "beginbfchar"] ++ es.flatMap (fun e => [Tok.str e.1, Tok.str e.2]) ++ [.kw "endbfchar"]
